@@ -42,6 +42,10 @@ TRUSTED = ["CPython ast parser", "closed-form Gaussian moment integrals (double 
 TOL = 1e-12
 EXPLANATION += ' (R8) compute_overlap segments its input with a convert_to_segmented that, evaluated on abstract shells, keeps every contraction in order, so rows / columns correspond to the basis functions of the given basis.'
 TECHNIQUE += '; accessor evaluation of the segmentation'
+# --- metadata added for batch 7
+TECHNIQUE += '; symbolic evaluation of the 1-D kernel recurrence, of the normalisation identity and of the tail conversion; two-call evaluation for remembered results'
+EXPLANATION += ' Added: (R8) also a second call of convert_to_segmented on the same basis object after its shells / conventions were edited in place must give the result for the edited basis (module state of the first call kept by the evaluator); (R9) the quantity compared with the screening threshold is the bare pair exponential; (R10) centres enter through differences only; (R11) the 1-D kernel satisfies its recurrence and symmetry for n <= 5 on symbols; (R12) normalisation constants x prefactor x kernel give unit self-overlap for every Cartesian function up to l = 3.'
+# --- end metadata batch 7
 
 
 def df(n):
